@@ -550,6 +550,7 @@ class Splicer:
                 op_ = "==" if toks[k].text.endswith("_eq") else "!="
                 self.sub(k, cl + 1, "%s!(%s %s %s)" % (mac, a, op_, b), "R5")
         cls = self.closures(body_lo + 1, body_hi)
+        self.last_closure_count = len(cls)
         # R4 wildcard closure parameters
         specd = {}
         if fs:
@@ -988,6 +989,7 @@ class Splicer:
                 g.meta["r13_r14"].append({"fn": key, "rule": "R21", "before": before, "after": newt})
             if not self.r21:
                 g.meta["skipped_anchors"].append({"fn": key, "kind": "rule", "ordinal": 21, "expected": "a bucket dereference `.as_ref()` / `.as_mut()`", "found": None, "excuses": False})
+        r13_before_ = sum(1 for x_ in g.meta["r13_r14"] if x_.get("fn") == key and x_.get("rule") == "R13")
         # R13
         if "R13" in fs.rules:
             s = [k for k in range(body_lo, body_hi) if toks[k].kind not in ("ws", "comment", "doc")]
@@ -1060,6 +1062,10 @@ class Splicer:
                             self.sub(s[n], x, new, "R13")
                             g.meta["r13_r14"].append({"fn": key, "rule": "R13", "before": before, "after": new})
                 n += 1
+        if "R13" in fs.rules and sum(1 for x_ in g.meta["r13_r14"] if x_.get("fn") == key and x_.get("rule") == "R13") == r13_before_:
+            # the `ref` pattern this function's contract was written around is gone: the code was restructured (typically into
+            # a closure or an explicit field borrow); what the verifier can no longer prove there may be for want of that shape
+            g.meta["skipped_anchors"].append({"fn": key, "kind": "rule", "ordinal": 13, "expected": "a `&(ref a, ref b)` pattern", "found": None})
         # ghost statements
         for gh in fs.ghosts:
             if gh.name in getattr(self, "skip_ghosts", ()):
@@ -1278,6 +1284,7 @@ def process_file(sp, fspec, g):
         sp.r11(it.head_lo, it.body_lo if it.body_lo else it.hi, add=None if in_trait else 'item')
         sp.r1(it.head_lo, it.hi)
         sp.docs_inside(it.head_lo, it.hi)
+        sp.last_closure_count = 0
         sp.do_fn(it, key, fs, None)
         sp.emit(it.lo, it.hi)
         g.raw("\n//@endfn\n")
@@ -1286,7 +1293,8 @@ def process_file(sp, fspec, g):
                                     "clauses": (len(fs.clauses) + sum(len(l.clauses) for l in fs.loops) +
                                                 sum(len(c.clauses) for c in fs.closures) + len(fs.ghosts)) if fs else 0,
                                     "contract": bool(fs and (fs.clauses or fs.loops or fs.closures or fs.ghosts)),
-                                    "external": bool(ext), "stake": list(fs.stake) if fs else []})
+                                    "external": bool(ext), "stake": list(fs.stake) if fs else [],
+                                    "closures": getattr(sp, "last_closure_count", 0)})
 
     def wanted_keep(it):
         head = rs.norm(toks, it.head_lo, it.body_lo if it.body_lo else it.hi)
